@@ -424,6 +424,22 @@ def _h_obj_three():
     return [lambda: a.add(b), lambda: c.subtract(b), lambda: b.to_xyzt()], [a, b, c]
 
 
+def _h_ak_same_op_params():
+    # both threads inside the same compute function with the same signature but different scalar parameters
+    a = vector.Array([[{"x": 1.5, "y": 0.75}], [], [{"x": -0.625, "y": 2.25}]])
+    return [lambda: (a.scale(2.0), a.rotateZ(0.5)), lambda: (a.scale(-3.0), a.rotateZ(-1.25))], [a]
+
+
+def _h_np_same_op_params():
+    a = _np2(0)
+    return [lambda: (a.scale(2.0), a.rotateZ(0.5), a.isclose(a, rtol=0.5)), lambda: (a.scale(-3.0), a.rotateZ(-1.25), a.isclose(a, rtol=0.0))], [a]
+
+
+def _h_obj_same_op_params():
+    a = vector.obj(rho=1.5, phi=0.75, eta=0.5, tau=2.0)
+    return [lambda: (a.scale(2.0), a.rotateZ(0.5), a.boostZ(beta=0.25)), lambda: (a.scale(-3.0), a.rotateZ(-1.25), a.boostZ(beta=-0.5))], [a]
+
+
 HARNESSES = {
     "np_add_shared": _h_np_add_shared, "np_boost_vs_to": _h_np_boost_vs_to, "np_slices": _h_np_slices, "np_sum": _h_np_sum, "np_mixed_obj": _h_np_mixed_obj,
     "obj_add_shared": _h_obj_add_shared, "obj_boost": _h_obj_boost, "obj_inplace_shared": _h_obj_inplace_shared, "obj_rotations": _h_obj_rotations,
@@ -433,6 +449,7 @@ HARNESSES = {
 # the quadratic number of schedules stays affordable; the Awkward one at function-entry granularity
 BOUND2 = {"np2_truediv": "line", "np2_mul_neg": "line", "np2_eq_abs": "line", "obj2_operators": "line", "ak2_operators": "entry"}
 HARNESSES.update({"np2_truediv": _h_np2_truediv, "np2_mul_neg": _h_np2_mul_neg, "np2_eq_abs": _h_np2_eq_abs, "obj2_operators": _h_obj2_operators, "ak2_operators": _h_ak2_operators})
+HARNESSES.update({"ak_same_op_params": _h_ak_same_op_params, "np_same_op_params": _h_np_same_op_params, "obj_same_op_params": _h_obj_same_op_params})
 EXTRA_HARNESSES = {"np_three_threads": _h_np_three, "obj_three_threads": _h_obj_three,
                    "np2_add_shared": _h_np2_add_shared, "obj2_add_shared": _h_obj2_add_shared, "ak2_scale_vs_Array": _h_ak2_scale_vs_Array}
 
